@@ -405,6 +405,7 @@ func (mq *memtableQueue) rotateNoLock() {
 
 // list returns all memtables (oldest first, including mutable).
 func (mq *memtableQueue) list() []*memtable {
+	verifPoint("memq.list")
 	mq.mu.RLock()
 	defer mq.mu.RUnlock()
 
